@@ -285,6 +285,7 @@ def replay_before_service(ctx, p):
                                 'cached table metadata (filled / last_removed) is re-read from disk for every column after replay')
         for s in rm:
             lib.precedes(ctx, p + 'i refresh-after-enact', ra, nx, [s], 'metadata refresh happens after the replay loop')
+    shared.header_cache_reloaded_after_replay(ctx, p + 'h2')
     shared.replay_order(ctx, p)
 
 
